@@ -47,13 +47,11 @@ def r1_who_may_exec(R) -> None:
                 f = Fn(R, q)
                 arg = n.args[0] if n.args else None
                 ok = False
-                if is_call(arg, 'build_model_definition'):
-                    ok = True
-                elif isinstance(arg, ast.Name):
-                    node = [m for m in f.cfg.nodes if m.ast is not None and any(x is n for x in ast.walk(m.ast))]
-                    if node:
-                        vals = f.lf.values_reaching(node[0].id, arg.id)
-                        ok = bool(vals) and all(v is not None and is_call(v, 'build_model_definition') for (_s, v) in vals)
+                node = [m for m in f.cfg.nodes if m.ast is not None and any(x is n for x in ast.walk(m.ast))]
+                if node:
+                    from rules.common import exec_source
+                    src, _faithful = exec_source(f, node[0].id, arg)
+                    ok = is_call(src, 'build_model_definition')
                 R.check(ok, q, f'exec-arg:{text(arg) if arg is not None else "?"}', 'exec runs a class definition produced by build_model_definition',
                         f'`{text(n)[:60]}`: the executed text is not the result of build_model_definition()', where=where)
                 # the namespace that receives the bindings (`Model`, ...) is not the module's own: building a model has no
